@@ -1099,3 +1099,79 @@ func seqInts(a, b int) []int {
 	}
 	return r
 }
+
+// ---- a claims object that is used a second time ----
+
+// TestC04_UsedObject: one claims object per session. The object decodes and
+// validates a conformant token, is read, and then the exported UnmarshalCBOR
+// decodes a SECOND token into it which carries the same number of software
+// components, every component with all five fields PRESENT (so that nothing of
+// the first token can show through: decoding into an existing object leaves
+// fields the new token does not mention as they were, Go's convention - no
+// verdict on those) and one of them with a measurement value or signer id of a
+// wrong length. That token is not conformant: the object must not validate.
+func TestC04_UsedObject(t *testing.T) {
+	st := NewStats("C04", "TestC04_UsedObject", "rapid: a claims object of either profile decodes (exported UnmarshalCBOR) and validates a conformant token, its components are read, then a second token with the SAME number of components - all five fields present in every component, one measurement value / signer id of a wrong length (0, 5, 31, 33, 65 bytes) - is decoded into the same object: Validate() and GetSoftwareComponents() must report the malformed component (the reject direction of 'accepts iff conformant' for an object with a past; what a field ABSENT from the second token becomes is Go's merge convention and gets no verdict). Non-trivial = every case; distinct = class vector of both tokens + position and length of the defect")
+	st.Require = []string{"P1", "P2", "defect=value", "defect=signer"}
+	defer st.Flush(t)
+	rapid.Check(t, func(t *rapid.T) {
+		p := drawProf(t)
+		m1 := GenValid(t, p, false)
+		if len(m1.Comps) == 0 {
+			m1.NoMeas, m1.CompsNil = nil, false
+			m1.Comps = drawValidComps(t, "sw1")
+		}
+		if len(m1.Comps) > 8 {
+			m1.Comps = m1.Comps[:8]
+		}
+		m2 := m1.Clone()
+		m2.Comps = nil
+		for i := range m1.Comps {
+			c := drawComp(t, true, fmt.Sprintf("sw2.%d", i))
+			if c.Type == nil {
+				c.Type = sp("BL")
+			}
+			if c.Version == nil {
+				c.Version = sp("1.0")
+			}
+			if c.Desc == nil {
+				c.Desc = sp("sha-256")
+			}
+			m2.Comps = append(m2.Comps, c)
+		}
+		at := rapid.IntRange(0, len(m2.Comps)-1).Draw(t, "defect.at")
+		bad := drawBytes(t, rapid.SampledFrom([]int{0, 5, 31, 33, 65}).Draw(t, "defect.len"), "defect.bytes")
+		what := rapid.SampledFrom([]string{"value", "signer"}).Draw(t, "defect.what")
+		if what == "value" {
+			m2.Comps[at].Value = &bad
+		} else {
+			m2.Comps[at].Signer = &bad
+		}
+		c, err := psatoken.NewClaims(p.Name())
+		if err != nil {
+			t.Fatalf("VERIF-INFRA: %v", err)
+		}
+		type cu interface{ UnmarshalCBOR([]byte) error }
+		if err := c.(cu).UnmarshalCBOR(m1.WireBytes()); err != nil {
+			t.Fatalf("C04: conformant token rejected by UnmarshalCBOR: %v [%s]", err, m1.ClassVector())
+		}
+		if err := c.Validate(); err != nil {
+			t.Fatalf("C04: conformant token does not validate: %v [%s]", err, m1.ClassVector())
+		}
+		if genBool.Draw(t, "read-first") {
+			_, _ = c.GetSoftwareComponents()
+			_ = c.Validate()
+		}
+		if err := c.(cu).UnmarshalCBOR(m2.WireBytes()); err != nil {
+			st.Case("", "second-token-undecodable", p.String())
+			return
+		}
+		if err := c.Validate(); err == nil {
+			t.Fatalf("C04 violated: a claims object that had decoded and validated a conformant token decodes a second token whose component %d has a %s of %d bytes - and validates\n second token: %x\n [%s]", at, what, len(bad), m2.WireBytes(), m2.ClassVector())
+		}
+		if scs, err := c.GetSoftwareComponents(); err == nil {
+			t.Fatalf("C04 violated: a claims object with a past decodes a second token whose component %d has a %s of %d bytes - and GetSoftwareComponents returns %d components without error\n second token: %x", at, what, len(bad), len(scs), m2.WireBytes())
+		}
+		st.Case(fmt.Sprintf("%s|%s|%d|%s|%d", m1.ClassVector(), m2.ClassVector(), at, what, len(bad)), p.String(), "defect="+what)
+	})
+}
